@@ -779,10 +779,9 @@ def check_forwarding(fn_paths, method, ctx):
         if len(fwd) == 0:
             if method == "get_info":
                 raise Shape("Ctap2Api::get_info completes without calling the direct method")
-            for k, req in enumerate(probes):
-                F.append(Finding("C18", "trait.%s.answers-without-forwarding.%d" % (method, k),
-                                 "<Authenticator as Ctap2Api>::%s has a path that answers without calling the direct method (%s)" %
-                                 (method, "; ".join(kk[:50] for kk, op, v in p.conds)[:120]), pair(req), differ, p))
+            F.append(Finding("C18", "trait.%s.answers-without-forwarding" % method,
+                             "<Authenticator as Ctap2Api>::%s has a path that answers without calling the direct method (%s)" %
+                             (method, "; ".join(kk[:50] for kk, op, v in p.conds)[:120]), [pair(req) for req in probes], differ, p))
             continue
         if len(fwd) != 1:
             raise Shape("Ctap2Api::%s: %d forwarding calls" % (method, len(fwd)))
@@ -791,9 +790,8 @@ def check_forwarding(fn_paths, method, ctx):
             req = chase(e["args"][1])
             unchanged = req[0] in ("in", "proj") or (req[0] == "with" and False)
             if not unchanged:
-                for k, rq in enumerate(probes):
-                    F.append(Finding("C18", "trait.%s.request-rewritten.%d" % (method, k),
-                                     "the trait method passes a rebuilt request to the direct method (%s)" % tstr(req)[:80], pair(rq), differ, p))
+                F.append(Finding("C18", "trait.%s.request-rewritten" % method,
+                                 "the trait method passes a rebuilt request to the direct method (%s)" % tstr(req)[:80], [pair(rq) for rq in probes], differ, p))
         full = e["full"]
         if " as Ctap2Api>::" in full or full.strip().startswith("<") and "Ctap2Api" in full:
             sc = {"op": "trait_" + method, "request": {"up": True}, "store": {"find": {"err": 0x2E}}, "user": {"outcome": {"ok": [True, True]}}}
